@@ -79,7 +79,8 @@ TSetFormat ==
        /\ nbad' = nbad + SumChecks(<<
             Chk((\A k \in 1..Len(fm) : Documented(fm[k])) => Succeeded(ev),
                   <<l, "SetFormat", "ok", TRUE>>),
-            Chk(ev.ok = 0 => RefusedAsUsage(ev), <<l, "SetFormat", "err", "EINVAL">>)
+            Chk(ev.ok = 0 => RefusedAsUsage(ev), <<l, "SetFormat", "err", "EINVAL">>),
+            Chk(CbQuietOnSuccess(ev), <<l, "SetFormat", "cbOnSuccess", "warnings only">>)
           >>)
        /\ UNCHANGED <<cur, ld>>
 
@@ -110,6 +111,8 @@ TSave3 ==
             Chk(ev.fs.ok = 0 => RefusedAsUsage(ev.fs), <<l, "Save3", "fsaveErr", "EINVAL">>),
             \* output exactly when successful; cksave never writes; saving
             \* does not change the data
+            Chk(CbQuietOnSuccess(ev.ck) /\ CbQuietOnSuccess(ev.sv) /\ CbQuietOnSuccess(ev.fs),
+                <<l, "Save3", "cbOnSuccess", "warnings only">>),
             Chk(ev.ck.file = 0, <<l, "Save3", "cksaveFile", 0>>),
             Chk(ev.sv.file = ev.sv.ok, <<l, "Save3", "saveFile", ev.sv.ok>>),
             Chk(ev.fs.file = ev.fs.ok, <<l, "Save3", "fsaveFile", ev.fs.ok>>),
@@ -157,6 +160,9 @@ TLoad ==
        /\ nbad' = nbad + SumChecks(<<
             Chk(must => (LoaderAccepts(SaveOutput(c)) /\ Succeeded(ev)),
                   <<l, ev.e, "ok", TRUE>>),
+            \* vnaerr(3), for every load whatever its outcome
+            Chk(CbQuietOnSuccess(ev), <<l, ev.e, "cbOnSuccess", "warnings only">>),
+            Chk(CbOnceOnFailure(ev), <<l, ev.e, "cbOnFailure", "one report matching errno">>),
             Chk((must /\ ev.ok = 1 /\ lt # {}) => ev.p.type \in lt,
                   <<l, ev.e, "type", lt>>),
             Chk((must /\ ev.ok = 1 /\ lt # {}) =>
